@@ -25,6 +25,7 @@ RULES = {
     "C03.c": "fitted attributes assigned lazily outside fit (caches) are reassigned or deleted on every normal path of fit",
     "C03.d": "on every path of fit (helpers inlined), a read of self.<name>_ / hasattr(self,'<name>_') is dominated by an assignment made by this fit",
     "C03.e": "a fitted attribute that only some fit paths assign is read by predict-reachable code only under the guard it was written under",
+    "C03.f": "the object trained by fit is a clone or a fresh object, never the one held in a hyper-parameter (whose fitted state, warm starts included, would survive into the next fit); documented in-place wrappers listed",
 }
 
 RNG_CTORS = {"numpy.random.RandomState", "numpy.random.default_rng", "numpy.random.Generator", "random.Random", "numpy.random.mtrand.RandomState"}
@@ -611,12 +612,16 @@ def run(ck):
     check_b(ck, repo)
     check_seed_truthiness(ck, repo)
     nf = check_dce(ck, repo)
+    from .c02 import check_d as _trained_object
+
+    ck.extra["trained_receivers"] = _trained_object(ck, repo, rule="C03.f")
     ck.extra["rng_constructor_sites"] = na
     ck.extra["fit_methods_analysed"] = nf
     ck.extra["exemptions"] = {"C03.a": {f"{k[0]}/{k[1]}": v for k, v in A_EXEMPT.items()}, "C03.c": {f"{k[0]}.{k[1]}": v for k, v in C_EXEMPT.items()}}
     ck.require_count("C03.a", 3, "check_random_state sites in kmeans_l1 (3), kmeans_constraint, piecewise_estimator (2) and RandomState in sklearn_transform_inv_fct")
     ck.require_count("C03.b", 1, "KMeansL1L2, PermutationReciprocalTransformer")
     ck.require_count("C03.d", 12, "fit methods")
+    ck.require_count("C03.f", 7, "receivers of .fit on fit paths (clones, fresh objects, documented in-place wrappers)")
 
 
 # ---------------------------------------------------------------- self-test
@@ -639,6 +644,7 @@ WITNESSES = [
     {"name": "timeseries-partial-attr", "file": _TB, "rule": "C03.e", "old": "        self.preprocessing_ = None\n        check_ts_X_y(self, X, y)\n", "new": "        check_ts_X_y(self, X, y)\n"},
     {"name": "piecewise-incremental-mapping", "file": _PE, "rule": "C03.d", "old": "        association, self.mapping_, self.leaves_ = self._mapping_train(X, self.binner_)\n", "new": "        if not hasattr(self, \"mapping_\"):\n            association, self.mapping_, self.leaves_ = self._mapping_train(X, self.binner_)\n        else:\n            association = self.transform_bins(X)\n"},
     {"name": "ptr-reads-old-betas", "file": _PT, "rule": "C03.d", "old": "        self.betas_ = numpy.empty((len(self.leaves_index_), X.shape[1] + 1))\n", "new": "        if not hasattr(self, \"betas_\") or self.betas_.shape[0] != len(self.leaves_index_):\n            self.betas_ = numpy.empty((len(self.leaves_index_), X.shape[1] + 1))\n"},
+    {"name": "dtlr-root-not-cloned", "file": "mlinsights/mlmodel/decision_tree_logreg.py", "rule": "C03.f", "old": "        estimator = clone(self.estimator)\n        self.tree_ = _DecisionTreeLogisticRegressionNode(estimator, 0.5)\n", "new": "        self.tree_ = _DecisionTreeLogisticRegressionNode(self.estimator, 0.5)\n"},
     {"name": "kmeansl1-warm-start-centers", "file": _KL, "rule": "C03.d", "old": "        init = self.init\n        if hasattr(init, \"__array__\"):", "new": "        init = self.cluster_centers_ if hasattr(self, \"cluster_centers_\") else self.init\n        if hasattr(init, \"__array__\"):"},
 ]
 TWINS = [
